@@ -29,8 +29,14 @@ class Path:
 
     def sqrt_of(self, term):
         """the fresh variable the engine introduced for sqrt(term) on this path (None if the code never took it)"""
-        hit = self.sqrts.get(z3.simplify(term).get_id())
-        return hit[1] if hit else None
+        t = z3.simplify(term)
+        hit = self.sqrts.get(t.get_id())
+        if hit is not None and hit[2].eq(t):
+            return hit[1]
+        for (_, var, simp) in self.sqrts.values():
+            if simp.eq(t):
+                return var
+        return None
 
     @property
     def premises(self):
@@ -506,7 +512,8 @@ class SR:
 
     def sqrt(self):
         e = Engine.cur
-        key = z3.simplify(self.z).get_id()
+        simp = z3.simplify(self.z)   # kept alive in the table: AST ids are only unique among live terms
+        key = simp.get_id()
         if key in e._sqrt_args:
             return SR(e._sqrt_args[key][1])
         c = _pyconst(self.z)
@@ -518,10 +525,10 @@ class SR:
         r = e.fresh("sqrt")
         e.declare_sign(r, "?")
         e.axiom(z3.Implies(self.z >= 0, z3.And(r >= 0, r * r == self.z)))
-        for (oz, orr) in e._sqrt_args.values():
+        for (oz, orr, _) in e._sqrt_args.values():
             e.axiom(z3.Implies(z3.And(oz >= 0, self.z >= 0),
                                z3.And((oz <= self.z) == (orr <= r), (oz < self.z) == (orr < r))))
-        e._sqrt_args[key] = (self.z, r)
+        e._sqrt_args[key] = (self.z, r, simp)
         return SR(r)
 
     def arccos(self):
